@@ -2,8 +2,8 @@
 from .. import lib, runner
 
 PROP = "C06"
-THEOREMS = ["Dec.pattern_iff_range", "Dec.selected_iff_window", "Dec.unassigned_iff", "Dec.forward_exact", "Dec.nobody_else", "Dec.r_data_is_selected", "Dec.r_data_zero_when_all_idle"]
-IMPORTS = ["SocVerif.Props.C06"]
+THEOREMS = ["Dec.pattern_iff_range", "Dec.selected_iff_window", "Dec.unassigned_iff", "Dec.forward_exact", "Dec.nobody_else", "Dec.r_data_is_selected", "Dec.r_data_zero_when_all_idle", "CsrT.mux_meets_spec", "CsrT.decoder_meets_spec", "CsrT.decoder_over_muxes", "CsrT.tree_meets_spec"]
+IMPORTS = ["SocVerif.Props.C06", "SocVerif.Props.C06T"]
 
 
 def run(rep, tier):
@@ -13,8 +13,31 @@ def run(rep, tier):
                                 nontrivial=lambda r: r["stats"]["subs"] >= 2 and r["stats"]["unassigned_vectors"] >= 1,
                                 sample_fmt=lambda r: {"decoder": r["descr"], "vectors (addr r_stb w_stb w_data sub r_data…)": r["lines"][r["stats"]["subs"] + 1:][:4], "observed": r["obs"][:4]})
     rep.coverage.update(agg)
+    # ---- closing clause, simulated side by side: decoder tree vs one flat multiplexer over all_resources()
+    from .. import decsim
+    nt, nc = (48, 300) if tier == "quick" else (2000, 500)
+    res = lib.pmap(decsim.treeflat_idx, [(rep.seed, i, nc) for i in range(nt)])
+    errs = [r for r in res if "harness_error" in r]
+    if errs:
+        raise lib.Infra("harness error: " + errs[0]["harness_error"] + errs[0].get("tb", ""))
+    res = [r for r in res if not r.get("skip")]
+    shown = 0
+    for r in res:
+        if r["fails"] and shown < 2:
+            shown += 1
+            rep.violation({"kind": "spec-violation", "experiment": "tree-vs-flat", "case_index": r["idx"], "hierarchy": r["descr"],
+                           "failures": [list(f) for f in r["fails"][:6]],
+                           "how_to_replay": f"harness.decsim.treeflat_idx({rep.seed}, {r['idx']}, {nc})"}, True,
+                          "C06: " + r["fails"][0][1])
+    rep.coverage["tree_vs_flat"] = {"trees": len(res), "cycles": sum(r["stats"]["cycles"] for r in res),
+                                    "transactions": sum(r["stats"]["txn_done"] for r in res),
+                                    "same_low_bits_other_window": sum(r["stats"]["same_low_bits_other_window"] for r in res)}
+    rep.coverage["evaluations"] += len(res)
     rep.coverage["rule"] = ("csr.Decoders with 0-5 subordinate buses of various sizes, orders and placements (implicit, explicit aligned "
                             "to the window size, align_to, decoder alignment 0-3 incl. padded windows, named/anonymous) in amaranth.sim; "
                             "every address swept (aw <= 6) with random strobes/data and one random subordinate driving read data; every "
                             "subordinate's addr/strobes/w_data and the upstream r_data compared with the Lean model and with the "
-                            "decoder's own memory map; non-trivial = >= 2 windows and at least one unassigned address exercised")
+                            "decoder's own memory map; non-trivial = >= 2 windows and at least one unassigned address exercised. Closing clause: trees of "
+                            "real csr.Decoders over real csr.Multiplexers are simulated side by side with ONE flat multiplexer over the same "
+                            "registers at all_resources() addresses under identical conforming transaction streams (incl. consecutive reads at "
+                            "the same low address bits in different windows); r_data and every register's strobes/w_data compared each cycle")
